@@ -295,6 +295,9 @@ fn fixed_texts() -> Vec<Value> {
         ("{\"var\":\"\"}", "10000000000000000000000"), ("{\"var\":\"\"}", "18446744073709551615"), ("{\"var\":\"\"}", "[1e21, 1e-7, 0.1]"), ("{\"var\":\"\"}", "{\"b\":1,\"a\":2,\"a\":3}"), ("[{\"var\":\"a\"}]", "{\"a\":1}"),
         ("\"-h\"", "null"), ("{\"var\":\"\"}", "\"--version\""), ("{\"var\":\"\"}", "nul"), ("{\"var\":\"\"}", "NaN"), ("{\"var\":\"\"}", "[1,]"), ("{\"var\":\"\"}", "\u{FEFF}1"), ("{\"var\":\"\"} x", "1"),
         ("{\"var\":\"\"}", "\"\\u0000\""), ("{\"var\":\"\"}", "\"\\ud800\""), ("{\"var\":\"\"}", "-"),
+        // spellings other tools accept and JSON does not: single quotes, bare keys, comments, hex / octal numbers, concatenated documents
+        ("{'var': 'a'}", "{\"a\": 1}"), ("{\"var\":\"\"}", "['x', 'y']"), ("'abc'", "null"), ("{var: \"a\"}", "{\"a\": 1}"), ("{\"var\":\"\"} // rule", "1"), ("/* c */ 1", "null"), ("{\"var\":\"\"}", "0x10"),
+        ("{\"var\":\"\"}", "010"), ("{\"var\":\"\"}", "1 2"), ("{\"var\":\"a\"}", "{\"a\": 1}\n{\"a\": 2}"), ("{\"var\":\"\"}", "+1"), ("{\"var\":\"\"}", ".5"), ("{\"var\":\"\"}", "True"), ("{\"var\":\"\"}", "None"), ("{\"var\":\"\"}", "undefined"),
     ];
     let mut out = vec![];
     for (r, d) in pairs {
